@@ -1,7 +1,7 @@
 (* Properties_C19.v — spline, trapezoid area and simplex minimiser meet their numerical contracts. *)
 From Coq Require Import Floats.
 From mathcomp Require Import all_ssreflect all_algebra.
-From LS Require Import NumOps RcfOps F64Ops Kernels Stats Spline Simplex SplineSpec SimplexSpec.
+From LS Require Import NumOps RcfOps F64Ops Kernels Stats Spline Simplex SplineSpec SplineUnits SimplexSpec.
 Set Implicit Arguments. Unset Strict Implicit. Unset Printing Implicit Defensive.
 Import Order.TTheory GRing.Theory Num.Theory.
 Local Open Scope ring_scope.
@@ -36,6 +36,22 @@ Proof. exact: piece_C1. Qed.
 Theorem C19_linear_exact (a0 s h : R) : h != 0 -> bcoef a0 (a0 + s * h) h 0 0 = s /\ dcoef h 0 0 = 0.
 Proof. exact: piece_linear. Qed.
 End Pieces.
+
+(* the evaluation does not depend on the units of x: with every knot spacing multiplied by s <> 0 (abscissae in another unit) the
+   right-hand sides the code forms are divided by s, the sweep gives c / s^2, the coefficient formulas b / s and d / s^3, and piece
+   j evaluated at s times the offset returns the same value — for every number of knots, every ordinates a and every piece *)
+Section Units.
+Variable R : realFieldType.
+Variables (h a : nat -> R) (n : nat) (s : R).
+Hypothesis h_pos : forall i, 0 < h i.
+Hypothesis s0 : s != 0.
+Theorem C19_spline_unit_free j t :
+  let h' := fun i => s * h i in
+  let c' := c_ h' (alpha a h') n in let c := c_ h (alpha a h) n in
+  S (a j) (bcoef (a j) (a j.+1) (h' j) (c' j) (c' j.+1)) (c' j) (dcoef (h' j) (c' j) (c' j.+1)) (s * t)
+  = S (a j) (bcoef (a j) (a j.+1) (h j) (c j) (c j.+1)) (c j) (dcoef (h j) (c j) (c j.+1)) t.
+Proof. exact: spline_units. Qed.
+End Units.
 
 Section Trapezoid.
 Variable R : rcfType.
@@ -85,6 +101,7 @@ Proof. exact: nm_not_worse_than_start. Qed.
 End SimplexExact.
 
 Print Assumptions C19_thomas_pivots_pos.
+Print Assumptions C19_spline_unit_free.
 Print Assumptions C19_tridiagonal_solved.
 Print Assumptions C19_C1.
 Print Assumptions C19_trapezoid_additive.
